@@ -57,12 +57,14 @@ class HGen:
             return f"({self.body(params, depth - 1, leafs, feats)}, {self.body(params, depth - 1, leafs, feats)})"
         if k < 0.62 and depth >= 2:
             # curried form: two nested non-called lambdas, the helper parameter used in the innermost one
-            v1, v2 = r.choice(["y", "j", "e", "w"]), r.choice(["z", "j", "e", "x", "evt"])
+            v1 = r.choice(["y", "j", "e", "w"])
+            # (the inner binder may literally carry a name a renaming scheme would generate for the outer one)
+            v2 = r.choice(["z", "j", "e", "x", "evt", f"{v1}_1", f"{v1}_1", f"{v1}_2", f"{v1}_0", "arg_0"])
             if v1 != v2:
                 feats.add("two-deep-nested-lambdas")
                 return f"{p}.c{m}.Select(lambda {v1}: {v1}.d{m}.Select(lambda {v2}: {v2}.q + {v1}.r + {self.body([x for x in params if x not in (v1, v2)] or [v1], 0, [], feats)}))"
         if k < 0.8:
-            v = r.choice([p, "j", "j", f"v{m}", r.choice(params), "e", "x", "w", "evt"])
+            v = r.choice([p, "j", "j", f"v{m}", r.choice(params), "e", "x", "w", "evt", f"{p}_1", f"{r.choice(params)}_1", "j_1", "e_1", "y_1"])
             feats.add("nested-lambda-reusing-parameter" if v in params else ("nested-lambda-j" if v == "j" else "nested-lambda"))
             inner = [x for x in params if x != v] + [v]
             return f"{p}.c{m}.Select(lambda {v}: {self.body(inner, depth - 1, leafs, feats)})"
@@ -125,7 +127,7 @@ def gen_file(rnd):
     tops = [g.helper(len(leafs) + i, False, leafs) for i in range(rnd.randint(5, 8))]
     cases = []
     for ci in range(rnd.randint(20, 30)):
-        P = rnd.choice(["e", "j", "x", "evt"])
+        P = rnd.choice(["e", "j", "x", "evt", "y", "w", "e_1", "j_1"])
         h = rnd.choice(tops)
         feats = set(h["feats"])
         g.k += 1
@@ -178,9 +180,31 @@ def gen_file(rnd):
     else:
         for h in leafs + tops:
             src += h["text"]
+        # history: a function whose LOCAL helpers carry the names of module-level helpers (other bodies); queries built there run
+        # first, the module-level queries calling the module-level helpers of the same names afterwards
+        shadowed = [h for h in tops if h["kind"] in ("def", "def-doc")][:2] if rnd.random() < 0.6 else []
+        local_cases = []
+        if shadowed:
+            src += "def scope():\n"
+            for h in shadowed:
+                src += f"    def {h['name']}({', '.join(h['params'])}): return {h['params'][0]}.local_{h['name']}\n"
+                args = ", ".join(f"q.a{k}" for k in range(len(h["params"])))
+                local_cases.append({"text": f"lambda q: {h['name']}({args})", "helpers": [h["name"]], "positional": True, "feats": ["local-helper-shadows-module-helper"], "multi": False, "local": True})
+            for i, c in enumerate(local_cases):
+                src += f"    def lcase{i}(ds):\n        return ds.Select({c['text']})\n"
+                src += f"    def lpy{i}():\n        return ({c['text']})\n"
+            src += "    return {k: v for k, v in locals().items() if k.startswith(('lcase', 'lpy'))}\nglobals().update(scope())\n"
         for i, c in enumerate(cases):
             src += f"def case{i}(ds):\n    return ds.Select({c['text']})\n"
             src += f"def py{i}():\n    return ({c['text']})\n"
+        for i, c in enumerate(cases):
+            c["fn"] = (f"case{i}", f"py{i}")
+        for i, c in enumerate(local_cases):
+            c["fn"] = (f"lcase{i}", f"lpy{i}")
+        # module-level users of the shadowed names right after the local ones
+        return src, local_cases + sorted(cases, key=lambda c: 0 if any(h["name"] + "(" in c["text"] for h in shadowed) else 1), leafs + tops
+    for i, c in enumerate(cases):
+        c["fn"] = (f"case{i}", f"py{i}")
     return src, cases, leafs + tops
 
 
@@ -194,18 +218,23 @@ def run_file(ctx, rnd):
         return
     env = {h["name"]: getattr(m, h["name"]) for h in helpers}
     top_inlinable = {h["name"] for h in helpers if not h["leaf"] and h["inlinable"]}
+    # python's own answers are all taken before the library sees any of the lambdas
+    for c in cases:
+        try:
+            c["expected"] = probe.behaviour(getattr(m, c["fn"][1])())
+        except Exception as e:
+            c["expected"] = e
     for i, c in enumerate(cases):
         key = f"{c['text']}|{[h['text'] for h in helpers if h['name'] in c['text']]}"
         nt = bool(set(c["feats"]) & {"two-deep-nested-lambdas", "bare-parameter", "constant", "nested-lambda-reusing-parameter", "nested-lambda-j", "nested-lambda", "calls-helper", "keyword-call", "reordered-keywords", "mixed-call", "call-site-in-nested-lambda"})
         witness = {"lambda": c["text"], "helpers": [h["text"] for h in helpers if h["name"] + "(" in c["text"] or any(h["name"] + "(" in x["text"] for x in helpers if x["name"] + "(" in c["text"])], "features": c["feats"]}
-        try:
-            expected = probe.behaviour(getattr(m, f"py{i}")())
-        except Exception as e:
-            ctx.count("harness:python-side-failed:" + type(e).__name__)
+        expected = c["expected"]
+        if isinstance(expected, Exception):
+            ctx.count("harness:python-side-failed:" + type(expected).__name__)
             continue
         ds = m.DS()
         try:
-            s = getattr(m, f"case{i}")(ds)
+            s = getattr(m, c["fn"][0])(ds)
         except Exception as e:
             ctx.case(key, nt)
             ctx.violation(f"exc:{type(e).__name__}@{astx.repo_frame(e, REPO)}", f"{c['text']}: {type(e).__name__}: {str(e)[:160]} | helpers: {witness['helpers']}", witness)
